@@ -748,138 +748,190 @@ func (c *Ctx) runValidatorConsumer(prefix string, tables *plyTables) {
 		admit[kind] = ad
 	}
 
-	// (b) assertions of the consumer
-	parents := map[ast.Node]ast.Node{}
-	var stack []ast.Node
-	ast.Inspect(fd.Body, func(n ast.Node) bool {
-		if n == nil {
-			stack = stack[:len(stack)-1]
-			return true
-		}
-		if len(stack) > 0 {
-			parents[n] = stack[len(stack)-1]
-		}
-		stack = append(stack, n)
-		return true
-	})
-	valuesVarOf := func(e ast.Expr) *types.Var {
-		id, ok := ast.Unparen(e).(*ast.Ident)
-		if !ok {
-			return nil
-		}
-		v, _ := identObj(info, id).(*types.Var)
-		if v == nil {
-			return nil
-		}
-		if sl, ok := v.Type().Underlying().(*types.Slice); ok {
-			if n, ok := sl.Elem().(*types.Named); ok && n.Obj().Name() == "PLYValue" {
-				return v
-			}
-		}
-		return nil
-	}
-	// defining assertion of list variables: val := values[k].(PLYValueList)
-	listVarIndex := map[types.Object]int64{}
-	ast.Inspect(fd.Body, func(n ast.Node) bool {
-		as, ok := n.(*ast.AssignStmt)
-		if !ok || len(as.Lhs) != 1 || len(as.Rhs) != 1 {
-			return true
-		}
-		ta, ok := ast.Unparen(as.Rhs[0]).(*ast.TypeAssertExpr)
-		if !ok || ta.Type == nil {
-			return true
-		}
-		ix, ok := ast.Unparen(ta.X).(*ast.IndexExpr)
-		if !ok || valuesVarOf(ix.X) == nil {
-			return true
-		}
-		if tv := info.Types[ix.Index]; tv.Value != nil {
-			k, _ := constant.Int64Val(constant.ToInt(tv.Value))
-			if id, ok := as.Lhs[0].(*ast.Ident); ok {
-				listVarIndex[identObj(info, id)] = k
-			}
-		}
-		return true
-	})
+	// (b) assertions of the consumer, and of the helpers it hands a row to
+	// from inside an element-kind branch (they are scanned with that kind)
 	var asserts []dtAssertion
-	ast.Inspect(fd.Body, func(n ast.Node) bool {
-		ta, ok := n.(*ast.TypeAssertExpr)
-		if !ok || ta.Type == nil {
+	type helperCall struct {
+		fd   *ast.FuncDecl
+		kind string
+	}
+	var helperCalls []helperCall
+	var scan func(body *ast.BlockStmt, forced string)
+	scan = func(body *ast.BlockStmt, forced string) {
+		parents := map[ast.Node]ast.Node{}
+		var stack []ast.Node
+		ast.Inspect(body, func(n ast.Node) bool {
+			if n == nil {
+				stack = stack[:len(stack)-1]
+				return true
+			}
+			if len(stack) > 0 {
+				parents[n] = stack[len(stack)-1]
+			}
+			stack = append(stack, n)
 			return true
-		}
-		// comma-ok form?
-		if as, ok := parents[ta].(*ast.AssignStmt); ok && len(as.Lhs) == 2 && len(as.Rhs) == 1 {
-			return true
-		}
-		a := dtAssertion{expr: ta}
-		// element kind: innermost enclosing if on element.Name (body only)
-		var child ast.Node = ta
-		for p := parents[ta]; p != nil; child, p = p, parents[p] {
-			if ifs, ok := p.(*ast.IfStmt); ok && child == ast.Node(ifs.Body) {
-				if kind, ok := elemNameTest(ifs.Cond); ok {
-					a.elemKind = kind
-					break
+		})
+		valuesVarOf := func(e ast.Expr) *types.Var {
+			id, ok := ast.Unparen(e).(*ast.Ident)
+			if !ok {
+				return nil
+			}
+			v, _ := identObj(info, id).(*types.Var)
+			if v == nil {
+				return nil
+			}
+			if sl, ok := v.Type().Underlying().(*types.Slice); ok {
+				if n, ok := sl.Elem().(*types.Named); ok && n.Obj().Name() == "PLYValue" {
+					return v
 				}
 			}
-			if cl, ok := p.(*ast.CaseClause); ok && parents[cl] != nil {
-				if kind, ok := elemNameCase(cl, parents[parents[cl]]); ok {
-					a.elemKind = kind
-					break
+			return nil
+		}
+		// defining assertion of list variables: val := values[k].(PLYValueList)
+		listVarIndex := map[types.Object]int64{}
+		ast.Inspect(body, func(n ast.Node) bool {
+			as, ok := n.(*ast.AssignStmt)
+			if !ok || len(as.Lhs) != 1 || len(as.Rhs) != 1 {
+				return true
+			}
+			ta, ok := ast.Unparen(as.Rhs[0]).(*ast.TypeAssertExpr)
+			if !ok || ta.Type == nil {
+				return true
+			}
+			ix, ok := ast.Unparen(ta.X).(*ast.IndexExpr)
+			if !ok || valuesVarOf(ix.X) == nil {
+				return true
+			}
+			if tv := info.Types[ix.Index]; tv.Value != nil {
+				k, _ := constant.Int64Val(constant.ToInt(tv.Value))
+				if id, ok := as.Lhs[0].(*ast.Ident); ok {
+					listVarIndex[identObj(info, id)] = k
 				}
 			}
-		}
-		x := ast.Unparen(ta.X)
-		switch e := x.(type) {
-		case *ast.IndexExpr:
-			if valuesVarOf(e.X) != nil {
-				if tv := info.Types[e.Index]; tv.Value != nil {
-					a.role = "whole"
-					a.k, _ = constant.Int64Val(constant.ToInt(tv.Value))
+			return true
+		})
+		kindAt := func(n ast.Node) string {
+			var child ast.Node = n
+			for p := parents[n]; p != nil; child, p = p, parents[p] {
+				if ifs, ok := p.(*ast.IfStmt); ok && child == ast.Node(ifs.Body) {
+					if kind, ok := elemNameTest(ifs.Cond); ok {
+						return kind
+					}
 				}
-			} else if sel, ok := ast.Unparen(e.X).(*ast.SelectorExpr); ok && sel.Sel.Name == "Values" {
-				if id, ok := ast.Unparen(sel.X).(*ast.Ident); ok {
-					if k, ok := listVarIndex[identObj(info, id)]; ok {
-						a.role, a.k = "elem", k
+				if cl, ok := p.(*ast.CaseClause); ok && parents[cl] != nil {
+					if kind, ok := elemNameCase(cl, parents[parents[cl]]); ok {
+						return kind
 					}
 				}
 			}
-		case *ast.SelectorExpr:
-			if e.Sel.Name == "Length" {
-				if id, ok := ast.Unparen(e.X).(*ast.Ident); ok {
-					if k, ok := listVarIndex[identObj(info, id)]; ok {
-						a.role, a.k = "len", k
-					}
+			return forced
+		}
+		ast.Inspect(body, func(n ast.Node) bool {
+			call, ok := n.(*ast.CallExpr)
+			if !ok {
+				return true
+			}
+			f := calleeFunc(info, call)
+			if f == nil || f.Pkg() != m3.Types {
+				return true
+			}
+			takesRow := false
+			for _, a := range call.Args {
+				if valuesVarOf(a) != nil {
+					takesRow = true
 				}
 			}
-		case *ast.Ident:
-			// range value over the row, under switch element.Properties[i].Name
+			if !takesRow {
+				return true
+			}
+			if hfd, _ := c.funcDecl(f); hfd != nil && hfd.Body != nil && hfd != fd {
+				helperCalls = append(helperCalls, helperCall{hfd, kindAt(call)})
+			}
+			return true
+		})
+		ast.Inspect(body, func(n ast.Node) bool {
+			ta, ok := n.(*ast.TypeAssertExpr)
+			if !ok || ta.Type == nil {
+				return true
+			}
+			// comma-ok form?
+			if as, ok := parents[ta].(*ast.AssignStmt); ok && len(as.Lhs) == 2 && len(as.Rhs) == 1 {
+				return true
+			}
+			a := dtAssertion{expr: ta, elemKind: forced}
+			// element kind: innermost enclosing if on element.Name (body only)
 			var child ast.Node = ta
 			for p := parents[ta]; p != nil; child, p = p, parents[p] {
-				cl, ok := p.(*ast.CaseClause)
-				if !ok {
-					continue
-				}
-				sw, ok := parents[parents[cl]].(*ast.SwitchStmt)
-				if !ok || sw.Tag == nil {
-					continue
-				}
-				sel, ok := ast.Unparen(sw.Tag).(*ast.SelectorExpr)
-				if !ok || sel.Sel.Name != "Name" {
-					continue
-				}
-				a.role = "named"
-				for _, le := range cl.List {
-					if tv := info.Types[le]; tv.Value != nil && tv.Value.Kind() == constant.String {
-						a.names = append(a.names, constant.StringVal(tv.Value))
+				if ifs, ok := p.(*ast.IfStmt); ok && child == ast.Node(ifs.Body) {
+					if kind, ok := elemNameTest(ifs.Cond); ok {
+						a.elemKind = kind
+						break
 					}
 				}
-				_ = child
-				break
+				if cl, ok := p.(*ast.CaseClause); ok && parents[cl] != nil {
+					if kind, ok := elemNameCase(cl, parents[parents[cl]]); ok {
+						a.elemKind = kind
+						break
+					}
+				}
 			}
-		}
-		asserts = append(asserts, a)
-		return true
-	})
+			x := ast.Unparen(ta.X)
+			switch e := x.(type) {
+			case *ast.IndexExpr:
+				if valuesVarOf(e.X) != nil {
+					if tv := info.Types[e.Index]; tv.Value != nil {
+						a.role = "whole"
+						a.k, _ = constant.Int64Val(constant.ToInt(tv.Value))
+					}
+				} else if sel, ok := ast.Unparen(e.X).(*ast.SelectorExpr); ok && sel.Sel.Name == "Values" {
+					if id, ok := ast.Unparen(sel.X).(*ast.Ident); ok {
+						if k, ok := listVarIndex[identObj(info, id)]; ok {
+							a.role, a.k = "elem", k
+						}
+					}
+				}
+			case *ast.SelectorExpr:
+				if e.Sel.Name == "Length" {
+					if id, ok := ast.Unparen(e.X).(*ast.Ident); ok {
+						if k, ok := listVarIndex[identObj(info, id)]; ok {
+							a.role, a.k = "len", k
+						}
+					}
+				}
+			case *ast.Ident:
+				// range value over the row, under switch element.Properties[i].Name
+				var child ast.Node = ta
+				for p := parents[ta]; p != nil; child, p = p, parents[p] {
+					cl, ok := p.(*ast.CaseClause)
+					if !ok {
+						continue
+					}
+					sw, ok := parents[parents[cl]].(*ast.SwitchStmt)
+					if !ok || sw.Tag == nil {
+						continue
+					}
+					sel, ok := ast.Unparen(sw.Tag).(*ast.SelectorExpr)
+					if !ok || sel.Sel.Name != "Name" {
+						continue
+					}
+					a.role = "named"
+					for _, le := range cl.List {
+						if tv := info.Types[le]; tv.Value != nil && tv.Value.Kind() == constant.String {
+							a.names = append(a.names, constant.StringVal(tv.Value))
+						}
+					}
+					_ = child
+					break
+				}
+			}
+			asserts = append(asserts, a)
+			return true
+		})
+	}
+	scan(fd.Body, "")
+	for i := 0; i < len(helperCalls) && i < 8; i++ {
+		scan(helperCalls[i].fd.Body, helperCalls[i].kind)
+	}
 	for i, a := range asserts {
 		asserted, _ := info.TypeOf(a.expr.Type).(*types.Named)
 		key := fmt.Sprintf("model3d.readColorPLY assertion#%d %s", i+1, types.ExprString(a.expr))
